@@ -1,8 +1,9 @@
 (* C15 -- Shipped problems' transitions and rewards match the documented dynamics.
    Age classes: position 0 = youngest ... last = oldest. *)
 From Coq Require Import ZArith QArith List Bool.
-From MdpaxV Require Import Model.ListUtil Model.Problems Model.ProblemOps Proofs.C15P Proofs.C14P Proofs.GenDeMoorP.
-From MdpaxGen Require Import GenDeMoor.
+From MdpaxV Require Import Model.ListUtil Model.Problems Model.ProblemOps Proofs.C15P Proofs.C14P Proofs.GenDeMoorP Proofs.GenMirjaliliP.
+From MdpaxGen Require GenDeMoor GenMirjalili.
+Import GenDeMoor.
 Import ListNotations.
 Open Scope Z_scope.
 
@@ -16,6 +17,15 @@ Theorem generated_demoor_transition_is_the_modelled_one : forall (L m : nat) (fi
   (snd (gen_transition L m fifo c_order c_short c_waste c_hold state [q] [d]) == dm_reward L m fifo c_order c_short c_waste c_hold state q d)%Q.
 Proof. exact gen_transition_eq. Qed.
 Print Assumptions generated_demoor_transition_is_the_modelled_one.
+(* the same for the Mirjalili platelet problem (gen/GenMirjalili.v): state = weekday :: stock, event = demand :: received by age *)
+Theorem generated_mirjalili_transition_is_the_modelled_one : forall (m : nat) (Qmax : Z) (c_var c_fix c_short c_waste c_hold : Q),
+  0 <= Qmax -> (1 <= m)%nat -> forall w stock q d rec, length stock = (m - 1)%nat -> length rec = m ->
+  fst (GenMirjalili.gen_transition m Qmax c_var c_fix c_short c_waste c_hold (w :: stock) [q] (d :: rec)) = mj_next m Qmax (w :: stock) d rec /\
+  (snd (GenMirjalili.gen_transition m Qmax c_var c_fix c_short c_waste c_hold (w :: stock) [q] (d :: rec)) ==
+   mj_reward Qmax c_var c_fix c_short c_waste c_hold (w :: stock) q d rec)%Q.
+Proof. exact gen_mj_transition_eq. Qed.
+Print Assumptions generated_mirjalili_transition_is_the_modelled_one.
+
 Theorem generated_issuing_is_the_modelled_issuing : forall stock d,
   gen_issue_fifo stock d = issue_fifo stock d /\ gen_issue_lifo stock d = issue_lifo stock d.
 Proof. exact (fun stock d => conj (gen_issue_fifo_eq stock d) (gen_issue_lifo_eq stock d)). Qed.
